@@ -204,8 +204,8 @@ def _month_region_rs(f: mirfront.MirFn, sf) -> set:
     return out
 
 
-_MB_OK = (ast.Expression, ast.Constant, ast.Name, ast.Load, ast.Attribute, ast.UnaryOp, ast.USub, ast.BinOp, ast.Add, ast.Sub, ast.Mult,
-          ast.Compare, ast.Eq, ast.NotEq, ast.Lt, ast.LtE, ast.Gt, ast.GtE, ast.Subscript, ast.Call)
+_MB_OK = (ast.Expression, ast.Constant, ast.Name, ast.Load, ast.Attribute, ast.UnaryOp, ast.USub, ast.Not, ast.BinOp, ast.Add, ast.Sub, ast.Mult,
+          ast.Compare, ast.Eq, ast.NotEq, ast.Lt, ast.LtE, ast.Gt, ast.GtE, ast.Subscript, ast.Call, ast.BoolOp, ast.And, ast.Or, ast.IfExp)
 
 
 def _mb_compile(src: str):
@@ -215,12 +215,12 @@ def _mb_compile(src: str):
     for n in ast.walk(tree):
         if not isinstance(n, _MB_OK):
             raise core.Unsupported(f"month branch: `{type(n).__name__}` in `{src[:60]}` is outside the evaluator")
-        if isinstance(n, ast.Call) and not (un(n.func) == "is_leap" and len(n.args) == 1):
+        if isinstance(n, ast.Call) and not ((un(n.func) == "is_leap" and len(n.args) == 1) or (un(n.func) in ("max", "min") and len(n.args) >= 2 and not n.keywords)):
             raise core.Unsupported(f"month branch: call `{un(n)[:40]}` is outside the evaluator")
-        if isinstance(n, ast.Name) and n.id not in ("A", "B", "DAY", "MONTH", "DAYS_PER_MONTHS", "is_leap"):
+        if isinstance(n, ast.Name) and n.id not in ("A", "B", "DAY", "MONTH", "DAYS_PER_MONTHS", "is_leap", "max", "min", "True", "False"):
             raise core.Unsupported(f"month branch: free name `{n.id}`")
     code = compile(tree, "<summary>", "eval")
-    return lambda env: eval(code, {"__builtins__": {}}, env)      # noqa: S307 - whitelisted arithmetic only
+    return lambda env: eval(code, {"__builtins__": {}, "max": max, "min": min}, env)      # noqa: S307 - whitelisted arithmetic only
 
 
 def _month_tabulate(ctx, region: set, who: str, site: str) -> None:
@@ -858,13 +858,14 @@ def run(ctx) -> None:
                 only_py, only_rs = py_region - rs_region, rs_region - py_region
                 ctx.count("month_branch_paths_py", len(py_region))
                 ctx.count("month_branch_paths_rs", len(rs_region))
-                if (only_py or only_rs) and _month_agree_tabulate(ctx, py_region, rs_region) is not None:
-                    pass            # differently written branches: decided on the values they compute
-                else:
-                  ctx.ob("MONTHBRANCH.agree", "py-vs-rs:precise_diff/day<0", not only_py and not only_rs,
-                       f"path summaries only in Python: {sorted(map(str, only_py))[:2]}; only in Rust: "
-                       f"{sorted(map(str, only_rs))[:2]}; both back ends must take the same decisions with the same updates",
-                       "rust/src/python/helpers.rs")
+                if not only_py and not only_rs:
+                    ctx.ob("MONTHBRANCH.agree", "py-vs-rs:precise_diff/day<0", True, "the same path summaries in both back ends", "rust/src/python/helpers.rs")
+                elif _month_agree_tabulate(ctx, py_region, rs_region) is None:
+                    # differently written branches are decided on the values they compute; when those are outside the evaluator
+                    # the difference in writing alone says nothing
+                    ctx.unverified("MONTHBRANCH.agree", "py-vs-rs:precise_diff/day<0",
+                                   f"the branches are written differently and are outside the evaluator (only in Python: {sorted(map(str, only_py))[:1]}; "
+                                   f"only in Rust: {sorted(map(str, only_rs))[:1]})", "rust/src/python/helpers.rs")
             except core.Unsupported as e:
                 ctx.unverified("MONTHBRANCH.agree", "rs:precise_diff", str(e), "rust/src/python/helpers.rs")
     ctx.step(_backend_switch, ctx)
